@@ -43,6 +43,7 @@ FIXED = [
  ("C17", "fix: the garbage collector of a VM lives as long as the VM", "len-2:monitor:use-after-free", "`stel a = [1.5]` then `a`: the per-run collector released what globals and the retained compiler's constants still referenced"),
  ("C17", "fix: functions survive between the programs of a retained compiler", "directed:retained-function:monitor:probe:call:entry", "`functie f() { 7 }` then `f()`: the function value pointed into the previous line's instruction buffer"),
  ("C03", "fix: assigning a string into itself no longer reads freed memory", "valgrind:invalid-read", "`stel s = \"abcdefghijklmnopqrstuvwxyz\"; s[0] = s`: replace_range read its source from the buffer realloc had just released"),
+ ("C11", "fix: stop and volgende in the condition of a loop belong to the enclosing loop", "directed:bytecode-residue:residue:heights-differ-at-join", "`[1, zolang als i > 2 { stop } anders { ja } { i += 1; i }, 3]` came out as [3, null, 3]: a stop / volgende in the condition of a loop left that loop with its previous value still on the stack (first noticed by the author of seeded change C11-b on the clean tree, then reproduced by C11's all-paths height check)"),
  ("C11", "fix: stop and volgende discard the operands of half-evaluated expressions", "residue:loop-head-height:x = 1 + als i % 2 == 0 { volgende } anders { 2 }", "stop / volgende from inside a half-evaluated expression left the pending operands on the stack: one or more slots of residue per early exit"),
 ]
 
